@@ -316,3 +316,13 @@ Example ex_pipeline_enabled :
   net_all_enabled (pipe_net ex_it ex_stages true) ex_moves_exact = true /\
   pend (net_run (pipe_net ex_it ex_stages true) ex_moves_exact) = PIdle.
 Proof. vm_compute. split; reflexivity. Qed.
+
+(** the protocol half alone, as the property files quote it *)
+Theorem pipeline_protocol it stages b N :
+  Forall ustage_ok stages -> net_reach (pipe_net it stages b) N ->
+  forall i n, nth_error (nodes N) i = Some n -> protocol_ok (ntrace n) /\ dead (ncfg n) = false.
+Proof.
+  intros Hok Hr i n Hn.
+  destruct (@pipeline_sound it stages b N Hok Hr i n Hn) as (_ & _ & _ & Hd & Hp). split; assumption.
+Qed.
+Print Assumptions pipeline_protocol.
